@@ -1421,7 +1421,7 @@ func (m *Manager) AddPoolTransactions(txns []types.Transaction) (known bool, err
 		return known, err
 	}
 
-	nTxns := len(m.txpool.txns)
+	nTxns, weight := len(m.txpool.txns), m.txpool.weight
 	for _, txn := range txns {
 		txid := txn.ID()
 		if _, ok := m.txpool.indices[txid]; ok {
@@ -1435,6 +1435,7 @@ func (m *Manager) AddPoolTransactions(txns []types.Transaction) (known bool, err
 				delete(m.txpool.indices, added.ID())
 			}
 			m.txpool.txns = m.txpool.txns[:nTxns]
+			m.txpool.weight = weight
 			return false, fmt.Errorf("transaction %v conflicts with pool: %w", txid, err)
 		}
 		m.txpool.ms.ApplyTransaction(txn, ts)
@@ -1507,7 +1508,7 @@ func (m *Manager) AddV2PoolTransactions(basis types.ChainIndex, txns []types.V2T
 		return known, err
 	}
 
-	nTxns := len(m.txpool.v2txns)
+	nTxns, weight := len(m.txpool.v2txns), m.txpool.weight
 	for _, txn := range txns {
 		txid := txn.ID()
 		if _, ok := m.txpool.indices[txid]; ok {
@@ -1520,6 +1521,7 @@ func (m *Manager) AddV2PoolTransactions(basis types.ChainIndex, txns []types.V2T
 				delete(m.txpool.indices, added.ID())
 			}
 			m.txpool.v2txns = m.txpool.v2txns[:nTxns]
+			m.txpool.weight = weight
 			return false, fmt.Errorf("transaction %v conflicts with pool: %w", txid, err)
 		}
 		m.txpool.ms.ApplyV2Transaction(txn)
